@@ -14,6 +14,7 @@ RULE = ("plans: up to 8 POST /rules (valid lists; invalid ones with a syntax err
         "from 1-2 admin clients, interleaved with 2-30 probe requests that start before, during (0-3 ms around the POST) and after; every version is an independent "
         "random rule list so that a decision mixing rules of two lists is almost surely impossible under either; non-trivial = >= 1 successful replacement whose list "
         "decides some probe differently from its predecessor; distinct = event-order hash")
+RULE_MORE = 'Later additions: long padded rule lists; volleys of probes in the instant of a POST; scheduling points at the asynchronous locks (lock_yield); GET /rules compared with the list in force after traffic.'
 LEVEL_TEXT = ("seeded exploration of the real API handler, set_rules and process_request: invoke/return of every POST and every probe are stamped with the simulator's global "
               "sequence numbers and a brute-force register-linearizability check decides whether each probe was decided entirely by a list that could be in force; "
               "failed replacements must leave GET /rules and all later decisions on the previous list")
